@@ -23,7 +23,13 @@ def grid(draw, unit, lo, hi):
 @st.composite
 def sched_specs(draw, quiet=True, adaptive=False, force_last=False,
                 empty_ok=False, all_quiet_ok=False, precisions=(None,),
-                max_procs=4, steps_ok=True, state_cond=False, twin_ok=False):
+                max_procs=4, steps_ok=True, state_cond=False, twin_ok=False,
+                deep=False):
+    # deep (thorough tier): a third of the cases may have up to two more
+    # processes and up to 8 calls
+    big = bool(deep) and draw(st.integers(0, 2)) == 0
+    if big:
+        max_procs += 2
     precision = draw(st.sampled_from(list(precisions)))
     if precision is None:
         unit = 0.25
@@ -70,7 +76,7 @@ def sched_specs(draw, quiet=True, adaptive=False, force_last=False,
     if quiet and not all_quiet_ok and procs and \
             all(p['cond'] is not None for p in procs):
         procs[0]['cond'] = None         # C01: never everybody quiet forever
-    ncalls = draw(st.integers(1, 5))
+    ncalls = draw(st.integers(1, 8 if big else 5))
     calls = []
     for j in range(ncalls):
         interval = tval(draw(st.integers(1, 32 if precision is None else
